@@ -23,8 +23,8 @@ Lemma inv_commit1 s u nrev nfsize nmroot fault :
 Proof.
   intros I D. cbn [step]. destruct (alookup u (upds s)) as [x|] eqn:L; [|exact I].
   destruct (D x L) as (Hfs & Hmr). unfold outcome.
-  destruct (m_commit1 s x nrev nfsize nmroot fault) as [[d' k]|e|] eqn:E; cbn [fst]; try exact I.
-  apply ok_any_fault in E; [|apply fok_m_commit1]. unfold m_commit1 in E.
+  destruct (g_commit1 s x nrev nfsize nmroot fault) as [[d' k]|e|] eqn:E; cbn [fst]; try exact I.
+  apply ok_any_fault in E; [|apply fok_g_commit1]. apply guarded_ok in E as [_ E]. unfold m_commit1 in E.
   apply store_revise1_ok in E as (c & t' & ns' & Lc & R & ->).
   destruct (inv_upd meta s I u x L) as ((c0 & Lc0 & Rc0) & Hold & Hfold & Huniq).
   rewrite Lc in Lc0; injection Lc0 as <-.
@@ -154,9 +154,9 @@ Lemma inv_renew1 s old new crev cfsize cmroot nrev nfsize nmroot nws mold fault 
   Inv (fst (step s (Renew1 old new crev cfsize cmroot nrev nfsize nmroot nws mold fault))).
 Proof.
   intros I (_ & Hno & Ln2 & (c & Lc & Rv) & ->). cbn [step]. unfold outcome.
-  destruct (m_renew1 s old new crev cfsize cmroot nrev nfsize nmroot nws (meta (cache_get s old)) fault)
+  destruct (g_renew1 s old new crev cfsize cmroot nrev nfsize nmroot nws (meta (cache_get s old)) fault)
     as [[d' k]|e|] eqn:E; cbn [fst]; try exact I.
-  apply ok_any_fault in E; [|apply fok_m_renew1]. unfold m_renew1 in E.
+  apply ok_any_fault in E; [|apply fok_g_renew1]. apply guarded_ok in E as [_ E]. unfold m_renew1 in E.
   destruct (negb (cmroot =? 0)); [discriminate|]. destruct (negb (cfsize =? 0)); [discriminate|].
   destruct (negb (crev =? max_rev)) eqn:Ecr; [discriminate|].
   destruct (negb (nfsize =? sector_size * nlen (cache_get s old))) eqn:Efs; [discriminate|].
